@@ -1,17 +1,26 @@
 #!/bin/bash
+# tools/seeded_matrix.sh [tier] [name...] - with names: re-run only those changes and replace / add their rows.
 # tools/seeded_matrix.sh [tier]  - run every seeded change under /verif/seeded against the check of the
 # property it breaks; prints one line per change and writes seeded/RESULTS.md (in the current /verif tree).
 cd "$(dirname "$0")/.."
 tier="${1:-quick}"
 out=seeded/RESULTS.md
+shift
+if [ $# -gt 0 ]; then
+  only=" $* "
+  grep -v "^| \($(echo "$@" | sed 's/ /\\|/g')\) |" $out > $out.tmp
+else
+only=""
 {
 echo "# Seeded breaking changes vs. checks ($tier tier)"
 echo
 echo "| change | property | check exit | first signature reported |"
 echo "|---|---|---|---|"
 } > $out.tmp
+fi
 for d in seeded/*/; do
   n=$(basename $d); p=${n:0:3}
+  if [ -n "$only" ] && [[ "$only" != *" $n "* ]]; then continue; fi
   [ -f $d/patch.diff ] || continue
   res=$(tools/mutant.sh $d/patch.diff $p $tier 2>&1)
   rc=$(echo "$res" | grep -o 'exit=[0-9]*' | tail -1 | cut -d= -f2)
@@ -33,4 +42,5 @@ for d in seeded/*/; do
   echo "$n $p exit=$rc $sig$note"
   echo "| $n | $p | $rc | $sig$note |" >> $out.tmp
 done
+if [ -n "$only" ]; then { head -4 $out.tmp; tail -n +5 $out.tmp | sort; } > $out.tmp2; mv $out.tmp2 $out.tmp; fi
 mv $out.tmp $out
